@@ -48,7 +48,7 @@ def c17_violation(r):
 CHECKS = {
     "C16": {
         "parts": {
-            "quick": [dict(harness="c16_dispatch", variant="plain", runs=120000, tl=70)],
+            "quick": [dict(harness="c16_dispatch", variant="plain", runs=600000, tl=90)],
             "thorough": [dict(harness="c16_dispatch", variant="plain", runs=6000000, tl=1200),
                          dict(harness="c16_dispatch", variant="san", runs=600000, tl=600)],
         },
@@ -59,19 +59,19 @@ CHECKS = {
     },
     "C06": {
         "parts": {
-            "quick": [dict(harness="c06_parallel", variant="plain", runs=4000, tl=100)],
+            "quick": [dict(harness="c06_parallel", variant="plain", runs=20000, tl=120)],
             "thorough": [dict(harness="c06_parallel", variant="plain", runs=400000, tl=1500),
                          dict(harness="c06_parallel", variant="san", runs=40000, tl=500),
                          dict(harness="c06_parallel", variant="plain", complex=True, runs=40000, tl=400)],
         },
         "is_violation": any_nonok,
-        "workload_keys": ["K", "quads", "F", "freqs", "P", "model", "wf", "split", "clear", "nosym", "beta"],
+        "workload_keys": ["calls", "hrep", "quads", "freqs", "P", "model", "wf", "nosym", "beta", "mp"],
         "rule": "one case = one seeded execution of the whole ED workflow SPMD on P simulated ranks with T simulated OpenMP threads, compared with the 1-rank/1-thread reference; "
                 "distinct = distinct hash of the full event sequence; non-trivial = at least 2 ranks or at least 2 OpenMP threads",
     },
     "C13": {
         "parts": {
-            "quick": [dict(harness="c13_container", variant="plain", runs=6000, tl=100)],
+            "quick": [dict(harness="c13_container", variant="plain", runs=30000, tl=120)],
             "thorough": [dict(harness="c13_container", variant="plain", runs=600000, tl=1500),
                          dict(harness="c13_container", variant="san", runs=40000, tl=500)],
         },
@@ -82,10 +82,10 @@ CHECKS = {
     },
     "C17": {
         "parts": {
-            "quick": [dict(harness="c17_workflow", variant="san", runs=1500, tl=45),
-                      dict(harness="c06_parallel", variant="san", runs=1200, tl=35),
-                      dict(harness="c13_container", variant="san", runs=1500, tl=30),
-                      dict(harness="c16_dispatch", variant="san", runs=20000, tl=20)],
+            "quick": [dict(harness="c17_workflow", variant="san", runs=4000, tl=60),
+                      dict(harness="c06_parallel", variant="san", runs=2000, tl=60),
+                      dict(harness="c13_container", variant="san", runs=3000, tl=60),
+                      dict(harness="c16_dispatch", variant="san", runs=40000, tl=40)],
             "thorough": [dict(harness="c17_workflow", variant="san", runs=200000, tl=1200),
                          dict(harness="c06_parallel", variant="san", runs=100000, tl=700),
                          dict(harness="c13_container", variant="san", runs=100000, tl=600),
@@ -93,7 +93,7 @@ CHECKS = {
                          dict(harness="c17_workflow", variant="san", complex=True, runs=40000, tl=400)],
         },
         "is_violation": c17_violation,
-        "workload_keys": ["ops", "K", "quads", "F", "freqs", "J", "G", "P", "model", "wf", "split", "clear", "nosym", "beta", "mode"],
+        "workload_keys": ["ops", "calls", "hrep", "quads", "freqs", "J", "G", "P", "model", "wf", "nosym", "beta", "mode", "mp"],
         "rule": "one case = one seeded simulated execution (workflow history or parallel workflow or container history or dispatcher rounds) with ASan+UBSan live; "
                 "distinct = distinct (harness, event-sequence hash); non-trivial = the run executed at least one MPI collective or point-to-point transfer through instrumented memcpy, or an index-chasing loop (every workflow run does)",
     },
@@ -108,6 +108,12 @@ def ubsan_class(r):
     m2 = re.search(r" in (.+) (/\S+:\d+)$", u)
     if m2: fn = "::".join(re.sub(r"\(.*", "", m2.group(1)).split("::")[-2:]).replace("Pomerol::", "")
     return "ubsan:%s%s" % (kind, ":" + fn if fn else "")
+
+
+def watchdog_of(part):
+    """per-run CPU budget (seconds) after which a run that never returns to the scheduler is declared hang:cpu-spin;
+    normal runs take milliseconds (dispatcher) to a few seconds (sanitised 3-site chain)"""
+    return part.get("watchdog", 30 if part["harness"] == "c16_dispatch" else 150)
 
 
 def log(msg):
@@ -165,7 +171,7 @@ def main():
         seed0 = base * 100000000 + pi * 10000000
         nruns = max(16, int(part["runs"] * scale))
         tb = time.time()
-        res, crashes = vlib.run_batch(exe, seed0, nruns, part["tl"] * max(1.0, scale))
+        res, crashes = vlib.run_batch(exe, seed0, nruns, part["tl"] * max(1.0, scale), extra=["--watchdog", str(watchdog_of(part))])
         for r in res: r["_part"] = pi
         for c in crashes: c["_part"] = pi; c.setdefault("cfg", ""); c.setdefault("hash", "crash"); c.setdefault("stats", {}); c.setdefault("probes", {}); c.setdefault("ubsan", []); c.setdefault("sig", "")
         wall = time.time() - tb
@@ -225,7 +231,7 @@ def main():
                   choices=choices, expect=dict(verdict=cls, hash=a["hash"]), detail=a.get("detail", "") or "; ".join(a.get("ubsan", [])[:2]), ubsan=a.get("ubsan", []),
                   original=dict(seed=r0["seed"], cfg=r0.get("cfg", ""), n_choices=len(first.get("choices") or [])), occurrences_in_batch=len(rs),
                   trace=a.get("trace", "")[-20000:], stderr=a.get("stderr", "")[-4000:] if cls != "ok" else "")
-        path = os.path.join(VERIF, "replays", "%s-%s-%s.json" % (pid, part["harness"], r0["seed"]))
+        path = os.path.join(os.environ.get("VERIF_OUT") or VERIF, "replays", "%s-%s-%s.json" % (pid, part["harness"], r0["seed"]))
         vlib.write_json(path, rp)
         if k:
             known_lines.append("KNOWN-FINDING: property=%s %s [%s, %d runs, replay=%s]" % (pid, k["text"], cls, len(rs), path))
@@ -283,7 +289,8 @@ def main():
         ],
         wall_s=round(wall, 2), violations=new_violations,
     )
-    vlib.write_json(os.path.join(VERIF, "evidence", "%s.json" % pid), ev)
+    outdir = os.environ.get("VERIF_OUT") or VERIF   # VERIF_OUT: sensitivity runs against scratch trees must not overwrite the real evidence
+    vlib.write_json(os.path.join(outdir, "evidence", "%s.json" % pid), ev)
     for l in known_lines: print(l)
     print("property=%s tier=%s runs=%d distinct_nontrivial=%d wall=%.1fs verdicts=%s" % (pid, tier, nruns, len(nontrivial), wall, dict(verdicts)))
     if unsupported and not new_violations:
